@@ -32,7 +32,8 @@ type job struct {
 	cfg   int
 	dial  int
 	scope string
-	bound int
+	bound int // highest fault bound this job takes part in
+	base  bool // program without extra action (non-vacuity counters are taken on these)
 }
 
 type agg struct {
@@ -45,6 +46,8 @@ type agg struct {
 	notEntered, restored, failedBlocks              int64
 	faultsByClass                                   sync.Map
 	unrecorded                                      int64
+	actExec                                         [numActs]int64
+	handleErrFailed, handleErrSurfaced              int64
 }
 
 func replayMain(run *mc.Run, path string) {
@@ -155,18 +158,46 @@ func main() {
 	for pi, p := range progs {
 		for cfg := 0; cfg < 8; cfg++ {
 			// the shipped dialector: every fault point
-			jobs = append(jobs, job{p, pi, cfg, dialStock, "all", 0})
+			jobs = append(jobs, job{p, pi, cfg, dialStock, "all", bound, true})
 			// the strict dialector differs only when a SAVEPOINT statement
 			// fails: quick enumerates exactly those faults, thorough everything
 			if cfg&cfgNoNested == 0 && p.size() > 1 {
 				if thorough {
-					jobs = append(jobs, job{p, pi, cfg, dialStrict, "all", 0})
+					jobs = append(jobs, job{p, pi, cfg, dialStrict, "all", bound, true})
 				} else {
-					jobs = append(jobs, job{p, pi, cfg, dialStrict, "savepoint", 0})
+					jobs = append(jobs, job{p, pi, cfg, dialStrict, "savepoint", bound, true})
 				}
 			}
 		}
 	}
+	// programs in which one block performs an extra action on its own handle
+	// (AddError / failing statement / manual SavePoint+RollbackTo / RollbackTo
+	// of an unknown name). Fault bound by tree size: quick = <=3 blocks
+	// fault-free, <=2 blocks with <=1 fault; thorough = <=4 blocks fault-free,
+	// <=3 blocks <=1 fault, <=2 blocks <=2 faults. The strict dialector (which
+	// reports the errors of the manual calls) runs the two manual actions.
+	// These jobs are cheap and go first so that a deadline never drops them.
+	actBlocks := 3
+	if thorough {
+		actBlocks = 4
+	}
+	actProgs := withActions(progs, actBlocks)
+	var actJobs []job
+	for ai, p := range actProgs {
+		jb := actBlocks - p.size()
+		if jb > bound {
+			jb = bound
+		}
+		for cfg := 0; cfg < 8; cfg++ {
+			actJobs = append(actJobs, job{p, len(progs) + ai, cfg, dialStock, "all", jb, false})
+			var act int
+			p.preorder(func(b *Block) { act += b.Act })
+			if act == actManualSP || act == actRTUnknown {
+				actJobs = append(actJobs, job{p, len(progs) + ai, cfg, dialStrict, "all", jb, false})
+			}
+		}
+	}
+	jobs = append(actJobs, jobs...)
 	var deadline time.Time
 	if thorough {
 		deadline = start.Add(9 * time.Minute)
@@ -199,15 +230,22 @@ func main() {
 					if int(n) >= len(jobs) {
 						return
 					}
+					j := jobs[n]
+					if j.bound < minLevel {
+						continue
+					}
+					eb := passBound
+					if j.bound < eb {
+						eb = j.bound
+					}
 					if time.Now().After(deadline) {
 						atomic.AddInt64(&passSkipped, 1)
 						continue
 					}
-					j := jobs[n]
 					mk := func(x *mc.Exec) *TreeCase {
 						return &TreeCase{Part: "tree", Prog: j.prog.clone(), Cfg: j.cfg, Dial: j.dial, Scope: j.scope}
 					}
-					e := &mc.Explorer{Bound: passBound, Workers: 1, Deadline: deadline,
+					e := &mc.Explorer{Bound: eb, Workers: 1, Deadline: deadline,
 						Run: func(x *mc.Exec) interface{} { return execTree(mk(x), x) },
 					}
 					e.Check = func(x *mc.Exec, ob interface{}) {
@@ -227,7 +265,12 @@ func main() {
 								break
 							}
 						}
-						if len(o.Classes) == 0 && j.scope == "all" {
+						if o.Act != actNone {
+							atomic.AddInt64(&a.actExec[o.Act], 1)
+							atomic.AddInt64(&a.handleErrFailed, int64(o.HandleErrFailed))
+							atomic.AddInt64(&a.handleErrSurfaced, int64(o.HandleErrSurfaced))
+						}
+						if len(o.Classes) == 0 && j.scope == "all" && j.base {
 							atomic.AddInt64(&a.faultFree, 1)
 							if len(o.Final) > 0 && len(o.Final) < o.AllWrites {
 								atomic.AddInt64(&a.faultFreePartial, 1)
@@ -363,6 +406,14 @@ func main() {
 		if manualCapped == 0 && (mStates < 8*100 || mTrans < 8*1000 || mFaulted < 8*500) {
 			run.HarnessError("vacuous: manual BFS reached %d states / %d transitions", mStates, mTrans)
 		}
+		for act := 1; act < numActs; act++ {
+			if a.actExec[act] < 1000 {
+				run.HarnessError("vacuous: only %d executions with the block action %s", a.actExec[act], actName[act])
+			}
+		}
+		if a.handleErrFailed < 500 {
+			run.HarnessError("vacuous: only %d blocks failed while their own handle carried an error", a.handleErrFailed)
+		}
 		if a.notEntered == 0 || a.restored == 0 {
 			run.HarnessError("vacuous: no block was kept out by a fault (%d) or no snapshot restored (%d)", a.notEntered, a.restored)
 		}
@@ -374,7 +425,7 @@ func main() {
 	run.Assume("dialector 'strict-savepoint' = gorm.io/driver/sqlite v1.5.6 with SavePoint/RollbackTo returning the statement's error (as the MySQL dialector does); the shipped SQLite dialector drops it, so gorm's own handling of a failed SavePoint is only reachable through the wrapper")
 	run.Assume("Transaction/Begin are called on the root *gorm.DB handle; writes are single-row Create calls, reads are Find; TxOptions and contexts with deadlines are outside the alphabet; SQLite's own SAVEPOINT stack is trusted")
 	run.Assume("RollbackTo on a name without a live save point must change nothing; whether it reports an error is not checked; the manual part runs on the shipped dialector only and injects faults at BEGIN / COMMIT / data statements (not SAVEPOINT) of the last operation of each sequence")
-	rule := fmt.Sprintf("part 1: all labelled trees of nested Transaction blocks with <=4 blocks, depth <=4 (%d labelled trees, %d after removing code that can never run), each block = write; {child; read}*; write; outcome nil/error/panic, parent propagates or swallows (recovers) each child's failure; x 8 configurations {PrepareStmt, DisableNestedTransaction, SkipDefaultTransaction}; each pair explored by the E1 explorer with every combination of <=%d injected driver faults over all BEGIN, COMMIT, SAVEPOINT, prepare/exec/query calls (shipped dialector) and additionally with the strict-savepoint dialector (quick: SAVEPOINT faults only); oracle in lock-step: snapshot-stack model, errors.Is/identical panic value at every Transaction call, reads inside blocks, final table, leaks, follow-up write. distinct_nontrivial = distinct (program, configuration, reference trace) with at least one failing or fault-blocked block. part 2: BFS over Begin + sequences of <=%d operations from %v per configuration (shipped dialector), de-duplicated on the canonical implementation state (table inside the transaction + error stored on the handle + recursively probed save point stack), compared with the reference state at every transition; every transition is repeated with a fault at each BEGIN / COMMIT / data-statement driver call of its last operation, followed by a usability probe (write; Commit)", raw, nProg, bound, manualDepth, opName)
+	rule := fmt.Sprintf("part 1: all labelled trees of nested Transaction blocks with <=4 blocks, depth <=4 (%d labelled trees, %d after removing code that can never run), each block = write; {child; read}*; write; outcome nil/error/panic, parent propagates or swallows (recovers) each child's failure; x 8 configurations {PrepareStmt, DisableNestedTransaction, SkipDefaultTransaction}; each pair explored by the E1 explorer with every combination of <=%d injected driver faults over all BEGIN, COMMIT, SAVEPOINT, prepare/exec/query calls (shipped dialector) and additionally with the strict-savepoint dialector (quick: SAVEPOINT faults only); in addition programs in which one block performs an extra action on its own handle after its second write (tx.AddError(marker) | a statement failing on a duplicate key | tx.SavePoint(m); write; tx.RollbackTo(m) | tx.RollbackTo(unknown name)), both dialectors, trees of <=%d blocks (fault bound shrinking with tree size, see executions_with_block_action); oracle in lock-step: snapshot-stack model, errors.Is/identical panic value at every Transaction call, reads inside blocks, final table, leaks, follow-up write. distinct_nontrivial = distinct (program, configuration, reference trace) with at least one failing or fault-blocked block. part 2: BFS over Begin + sequences of <=%d operations from %v per configuration (shipped dialector), de-duplicated on the canonical implementation state (table inside the transaction + error stored on the handle + recursively probed save point stack), compared with the reference state at every transition; every transition is repeated with a fault at each BEGIN / COMMIT / data-statement driver call of its last operation, followed by a usability probe (write; Commit)", raw, nProg, bound, actBlocks, manualDepth, opName)
 	cov := map[string]interface{}{
 		"evaluations":         a.executions + int64(mTrans) + int64(mFaulted),
 		"distinct_nontrivial": distinct.Len(),
@@ -399,6 +450,10 @@ func main() {
 		"nv_programs_partial_rollback_nested_on":  partialOn,
 		"nv_programs_partial_rollback_nested_off": partialOff,
 		"nv_executions_partial_rollback":          a.partialExec,
+		"programs_with_block_action":    len(actProgs),
+		"executions_with_block_action":  map[string]int64{actName[1]: a.actExec[1], actName[2]: a.actExec[2], actName[3]: a.actExec[3], actName[4]: a.actExec[4]},
+		"nv_blocks_failed_with_error_on_own_handle": a.handleErrFailed,
+		"root_blocks_returning_handle_error_after_commit": a.handleErrSurfaced,
 		"blocks_failed":                 a.failedBlocks,
 		"snapshots_restored":            a.restored,
 		"blocks_kept_out_by_fault":      a.notEntered,
